@@ -325,7 +325,20 @@ func (s *Speller) anchor(kind, id string) {
 	s.Anchors = append(s.Anchors, Anchor{kind, id, s.B.Len()})
 }
 
+// StrictBraces makes the speller refuse a text that ends in '{' directly in front of a delimiter ("{" + "{{" reads
+// as "{{" + "{"): a generator that produces this has made a mistake (C01's byte-level inputs do not go through here).
+var StrictBraces = true
+
+func (s *Speller) guardBrace() {
+	if StrictBraces {
+		if b := s.B.String(); len(b) > 0 && b[len(b)-1] == '{' {
+			panic("gen: a text ending in '{' stands directly in front of a delimiter: " + b[max(0, len(b)-40):])
+		}
+	}
+}
+
 func (s *Speller) open(d string, prevTextEndsWS bool) {
+	s.guardBrace()
 	if !prevTextEndsWS && s.Pol.Trim() {
 		d += "-"
 	}
@@ -412,6 +425,7 @@ func (s *Speller) node(n Node, nextWS bool) {
 		s.Expr(n.X)
 		s.close("}}", nextWS)
 	case *NComment:
+		s.guardBrace()
 		s.B.WriteString("{#" + n.S + "#}")
 	case *NVerbatim:
 		s.open("{%", endsWS(&s.B))
@@ -420,7 +434,11 @@ func (s *Speller) node(n Node, nextWS bool) {
 		s.close("%}", bodyWS)
 		s.anchor("verbatim-body", "")
 		s.B.WriteString(n.S)
+		// (a verbatim body may end in anything, also in '{': the end tag is found by its name)
+		strict := StrictBraces
+		StrictBraces = false
 		s.endTag("endverbatim")
+		StrictBraces = strict
 	case *NIf:
 		for i, c := range n.Conds {
 			kw := "if"
